@@ -11,7 +11,9 @@ entries freely; a dangling reference is a PlanError):
                                                   CBlock 'from' (inv: an event filter negates
                                                   the value; hop: the event goes through a
                                                   second Input 'x0h' that forwards it)
-  blocks [{'name': 'b0', 'op': 'not'|'id'|'and'|'xor', 'ins': [names]}]   in creation order
+  blocks [{'name': 'b0', 'op': 'not'|'id'|'and'|'xor', 'ins': [...]}]     in creation order;
+         an input is a block name, a literal true/false (edzed wraps it in a Const) or
+         {'const': bool} (an explicit edzed.Const object); a block may have constants only
   ops    [{'puts': [[src, bool], ...]}]           one burst of external 'put' events each
 
 Documented semantics used by the model:
@@ -25,6 +27,26 @@ Documented semantics used by the model:
 from __future__ import annotations
 
 OPS = ('not', 'id', 'and', 'xor')
+
+# internal names of constant inputs: literal / explicit Const object, value
+CONST_NAMES = {'#T': True, '#F': False, '#CT': True, '#CF': False}
+
+
+def norm_input(i):
+    """Plan input -> block name or one of CONST_NAMES."""
+    if isinstance(i, bool):
+        return '#T' if i else '#F'
+    if isinstance(i, dict):
+        if set(i) != {'const'} or not isinstance(i['const'], bool):
+            raise NetError(f"malformed constant input {i!r}")
+        return '#CT' if i['const'] else '#CF'
+    if isinstance(i, str) and i and not i.startswith('#'):
+        return i
+    raise NetError(f"malformed input {i!r}")
+
+
+def is_const(i):
+    return i in CONST_NAMES
 
 
 class NetError(Exception):
@@ -53,7 +75,8 @@ class Net:
             self.evin = [dict(name=e['name'], frm=e['from'], inv=bool(e.get('inv')),
                               init=bool(e.get('init')), hop=bool(e.get('hop')))
                          for e in plan.get('evin', [])]
-            self.blocks = [(b['name'], b['op'], list(b['ins'])) for b in plan['blocks']]
+            self.blocks = [(b['name'], b['op'], [norm_input(i) for i in b['ins']])
+                           for b in plan['blocks']]
         except (KeyError, TypeError, ValueError) as err:
             raise NetError(f"malformed plan: {err!r}") from None
         self.src_names = [s[0] for s in self.srcs]
@@ -61,7 +84,8 @@ class Net:
         self.ev_names = [e['name'] for e in self.evin]
         names = self.src_names + self.blk_names + self.ev_names
         names += [e['name'] + 'h' for e in self.evin if e['hop']]
-        if len(set(names)) != len(names) or not all(isinstance(n, str) and n for n in names):
+        if len(set(names)) != len(names) or not all(
+                isinstance(n, str) and n and not n.startswith('#') for n in names):
             raise NetError("names not unique")
         if not self.blocks:
             raise NetError("no blocks")
@@ -79,7 +103,7 @@ class Net:
             if not ins or (op in ('not', 'id') and len(ins) != 1):
                 raise NetError(f"{name}: wrong number of inputs")
             for i in ins:
-                if i not in known:
+                if i not in known and i not in CONST_NAMES:
                     raise NetError(f"{name}: input {i!r} missing")
         for op in plan.get('ops', []):
             for put in op['puts']:
@@ -90,7 +114,9 @@ class Net:
         for name, op, ins in self.blocks:
             row = []
             for i in ins:
-                if i in self.bidx:
+                if i in CONST_NAMES:
+                    row.append(('c', CONST_NAMES[i], False))
+                elif i in self.bidx:
                     row.append(('b', self.bidx[i], False))
                 elif i in self.evmap:
                     e = self.evmap[i]
@@ -107,6 +133,8 @@ class Net:
         self.topo = self._toposort(self.pred_all)
         self.acyclic = self.topo is not None
         self.acyclic_direct = self._toposort(self.pred_direct) is not None
+        self.const_only = [n for n, _o, ins in self.blocks if all(is_const(i) for i in ins)]
+        self.has_const = any(is_const(i) for _n, _o, ins in self.blocks for i in ins)
         self.uses_event_edge = any(i in self.evmap for _n, _o, ins in self.blocks for i in ins)
         self._sat_cache = {}
 
@@ -139,8 +167,8 @@ class Net:
     def consistent(self, srcvals, bits):
         """Is the assignment (bit k = output of block k) a fixed point of every block?"""
         for k, (_name, op, _ins) in enumerate(self.blocks):
-            vals = [srcvals[c[1]] if c[0] == 's' else bool(bits >> c[1] & 1) != c[2]
-                    for c in self.cins[k]]
+            vals = [srcvals[c[1]] if c[0] == 's' else c[1] if c[0] == 'c'
+                    else bool(bits >> c[1] & 1) != c[2] for c in self.cins[k]]
             if apply_op(op, vals) != bool(bits >> k & 1):
                 return False
         return True
@@ -172,6 +200,8 @@ class Net:
             nodes = set(self.blocks[k][2])      # distinct input blocks
             total = 1 if initial else 0
             for i in nodes:
+                if i in CONST_NAMES:
+                    continue            # a constant never changes
                 if i in self.bidx:
                     total += cnt[self.bidx[i]]
                 elif i in self.evmap:
@@ -229,6 +259,11 @@ def gen_net(rng, tier, index):
                          'init': rng.random() < 0.5, 'hop': rng.random() < 0.25})
             ev_avail[ename] = j
     dense = rng.random() < 0.5      # reconvergent fan-out wanted
+    const_mode = rng.random() < 0.3     # constant inputs, blocks fed by constants only
+
+    def rnd_const():
+        v = rng.random() < 0.5
+        return v if rng.random() < 0.7 else {'const': v}
     blocks = []
     fan_shape = kind == 'acyclic' and nblk >= 4 and rng.random() < 0.3
     if fan_shape:
@@ -259,7 +294,9 @@ def gen_net(rng, tier, index):
         cands = [s['name'] for s in srcs] + names[:k] + [e for e, j in ev_avail.items() if j < k]
         ins = []
         for n in range(fan):
-            if k and n == 0 and rng.random() < 0.6:
+            if const_mode and rng.random() < 0.15:
+                ins.append(rnd_const())
+            elif k and n == 0 and rng.random() < 0.6:
                 ins.append(names[k - 1])            # long paths
             elif k and dense and rng.random() < 0.5:
                 ins.append(rng.choice(names[:k]))
@@ -275,6 +312,19 @@ def gen_net(rng, tier, index):
                 b['ins'] = [ename]
             else:
                 b['ins'].append(ename)
+    if const_mode:
+        # blocks whose inputs are all constants (Not(False), And(True, True), identity of a
+        # Const ...) feeding the rest of the network; terminals of the fan shape get an extra
+        # constant input
+        for _ in range(rng.choice([0, 1, 1, 2])):
+            b = rng.choice(blocks)
+            if any(i in ev_avail for i in b['ins'] if isinstance(i, str)):
+                continue
+            n = 1 if b['op'] in ('not', 'id') else rng.choice([1, 2, 2, 3])
+            b['ins'] = [rnd_const() for _ in range(n)]
+        for b in blocks:
+            if b['op'] in ('and', 'xor') and len(b['ins']) < 4 and rng.random() < 0.1:
+                b['ins'].append(rnd_const())
     if kind != 'acyclic':
         for _ in range(rng.choice([1, 1, 1, 2, 2, 3])):
             preds = [[names.index(i) for i in b['ins'] if i in names] for b in blocks]
